@@ -158,6 +158,8 @@ class Database:
             if obj is not self.project:
                 raise DatabaseValidationError(f'{obj} is not in the database.')
             return self.delete_project()
+        elif isinstance(obj, StickyNote):
+            return self.delete_sticky_note(obj)
         else:
             raise DatabaseValidationError(f'Unsupported type {type(obj)}.')
 
@@ -194,6 +196,16 @@ class Database:
         except ValueError:
             raise DatabaseValidationError(f'{obj} is not in the database.')
         result = self.table_groups.pop(index)
+        self._unset_database(result)
+        return result
+
+    def delete_sticky_note(self, obj: StickyNote) -> StickyNote:
+        for index, note in enumerate(self.sticky_notes):
+            if note is obj:
+                break
+        else:
+            raise DatabaseValidationError(f'{obj} is not in the database.')
+        result = self.sticky_notes.pop(index)
         self._unset_database(result)
         return result
 
